@@ -271,8 +271,37 @@ def expected_mode(sel_kind, sel_val):
     return "m0.K0"  # dashboard string names a mode: it wins over the chooser
 
 
+_life_pkg = {}
+
+
+def life_menu(ops):
+    started = False
+    for o in ops:
+        if o[0] == "start":
+            started = True
+        elif o[0] == "disable":
+            started = False
+    if started:
+        return [("periodic", 0), ("periodic", 2), ("disable",)]
+    menu = [("start",), ("periodic", 1), ("disable",), ("auto", "B"), ("auto", "nope"), ("chooser", "B"), ("chooser", "None"), ("chooser", "A")]
+    if ops and ops[-1][0] in ("auto", "chooser"):
+        menu = [o for o in menu if o[0] != ops[-1][0]]  # a second edit of the same kind just overwrites the first
+    return menu
+
+
+def life_roots():
+    out = []
+    m0 = life_menu([])
+    for i, a in enumerate(m0):
+        for j, b in enumerate(life_menu([a])):
+            out.append((i, j))
+    return out
+
+
 def run_history(ch, nops, sel, res):
+    """One start / periodic / disable / selection-edit history.  `sel` is unused (kept for old replay files)."""
     from robotpy_ext.autonomous import AutonomousModeSelector
+    import wpilib
     import wpilib.simulation as ws
 
     env.align()
@@ -280,65 +309,79 @@ def run_history(ch, nops, sel, res):
     R._G.cnt.clear()
     R._G.fault = {}
     R._G.hooks = []
-    name, root = write_package(LIFE_SPEC)
+    if "life" not in _life_pkg:
+        _life_pkg["life"] = write_package(LIFE_SPEC)  # one package per worker process, re-used (the mode classes are stateless)
+    name, root = _life_pkg["life"]
     sys.path.insert(0, root)
     selector = None
+    MODE = {"A": "m0.K0", "B": "m0.K1"}
     try:
         set_fms(False)
         selector = AutonomousModeSelector(name)
-        apply_selection(*sel)
-        exp_mode = expected_mode(*sel)
+        inst = env.nt()
+        auto_str = None  # the dashboard's 'Auto Selector' string
+        chooser = "A"  # chooser selection (A is the DEFAULT mode)
         started = False
-        ever = False
+        cur = None
         ops = []
         t_start = None
         want = []  # expected log
         for k in range(nops):
-            menu = [("start",)] if not started and not ever else ([("periodic", 0), ("periodic", 1), ("periodic", 2), ("disable",)] if started else [("start",), ("periodic", 1), ("disable",)])
+            menu = life_menu(ops)
             op = menu[ch.choose(len(menu), "op")]
             ops.append(op)
             if op[0] == "start":
                 env.advance(1)
                 t_start = env.now()
                 selector.start()
-                started = ever = True
-                if exp_mode:
-                    want.append((exp_mode + ".on_enable", None))
+                started = True
+                cur = MODE[auto_str] if auto_str in MODE else MODE.get(chooser)
+                if cur:
+                    want.append((cur + ".on_enable", None))
             elif op[0] == "periodic":
                 env.advance(op[1])
+                if t_start is None:
+                    continue  # periodic() before the first start() is outside the alphabet
                 selector.periodic()
-                if started and exp_mode:
-                    want.append((exp_mode + ".on_iteration", float(env.now() - t_start)))
-            else:
+                if started and cur:
+                    want.append((cur + ".on_iteration", float(env.now() - t_start)))
+            elif op[0] == "disable":
                 selector.disable()
-                if started and exp_mode:
-                    want.append((exp_mode + ".on_disable", None))
+                if started and cur:
+                    want.append((cur + ".on_disable", None))
                 started = False
+            elif op[0] == "auto":
+                auto_str = op[1]
+                wpilib.SmartDashboard.putString("Auto Selector", op[1])
+            else:
+                chooser = op[1]
+                inst.getEntry("/SmartDashboard/Autonomous Mode/selected").setString(op[1])
+                wpilib.SmartDashboard.updateValues()
         got = [(r[0], r[2]) for r in R._G.log if not r[0].startswith("init:")]
         res.executions += 1
         res.transitions += nops
         res.checks += 1
-        rp = dict(engine="selector", part="lifecycle", selection=list(sel), choices=list(ch.choices), nops=nops)
+        rp = dict(engine="selector", part="lifecycle", selection=None, choices=list(ch.choices), nops=nops)
         if got != want:
             k = next((i for i, (a, b) in enumerate(zip(got, want)) if a != b), min(len(got), len(want)))
             g, w = (got[k] if k < len(got) else None), (want[k] if k < len(want) else None)
+            periods = sum(1 for o in ops if o[0] == "start")
             if g is not None and w is not None and g[0] == w[0]:
                 kind = "elapsed-time"
-            elif g is not None and (w is None or g[0].split(".")[:2] != w[0].split(".")[:2]) and exp_mode and not g[0].startswith(exp_mode):
+            elif g is not None and w is not None and g[0].split(".")[-1] == w[0].split(".")[-1]:
                 kind = "wrong-mode-got-callback"
             elif g is None:
                 kind = "callback-missing:" + w[0].split(".")[-1]
             else:
                 kind = "unexpected-callback:" + g[0].split(".")[-1]
-            res.violation(f"lifecycle:{kind}:{sel[0]}", f"selection {sel}, ops {ops}: callbacks {got}, expected {want}", rp)
-        res.outcome(core.stable_hash([list(sel), got]))
-        if not res.samples and nops >= 4:
-            res.sample(dict(part="lifecycle", selection=list(sel), ops=[list(o) for o in ops], callbacks=[list(g) for g in got]))
+            res.violation(f"lifecycle:{kind}:{'first-period' if periods <= 1 else 'later-period'}", f"ops {ops}: callbacks {got}, expected {want}", rp)
+        res.outcome(core.stable_hash(got))
+        if not res.samples and nops >= 4 and len(got) >= 3:
+            res.sample(dict(part="lifecycle", ops=[list(o) for o in ops], callbacks=[list(g) for g in got]))
     finally:
         sys.path.remove(root)
         ws._simulation._resetWpilibSimulationData()
         selector = None
-        drop_package(name, root)
         env.nt_reset()  # (collects garbage first) nothing of this execution may leak into the next one
 
 
@@ -434,9 +477,8 @@ def main(tier, seed):
     items = [("mc.props.c14", "work_discovery", dict(specs=fam[i:i + 60])) for i in range(0, len(fam), 60)]
     nops = 6 if tier == "quick" else 8
     life_items = []
-    for sel in SELECTIONS:
-        for r in range(4):
-            life_items.append(dict(sel=list(sel), nops=nops, roots=[(0, r)]))
+    for root in life_roots():
+        life_items.append(dict(sel=[None, None], nops=nops, roots=[root]))
     hs = [h for h in R.histories(4 if tier == "quick" else 6, alphabet="dat") if "a" in h]
     sels = [("none", None), ("auto-selector", "other"), ("auto-selector", "bogus"), ("chooser", "other"), ("chooser", "None"), ("chooser", "plain")]
     run_items = [dict(histories=hs[i:i + 6], selections=sels) for i in range(0, len(hs), 6)]
@@ -452,9 +494,9 @@ def main(tier, seed):
     rule = (
         "(A) every generated package in the family (1-2 modules [thorough: 3], 0-2 classes per module, 9 class variants over MODE_NAME / DISABLED / DEFAULT / "
         "raising constructor, modules that raise at import) x FMS attached or not, written to disk and loaded by the real AutonomousModeSelector; set-level "
-        "discovery model (who is instantiated once, modes table, chooser options and preselection, raise / tolerate). (B) every start / periodic / disable "
-        "history of the stated length (clock advance 0/1/2 ticks before periodic; start only after disable) x 7 selection sources; the exact callback log "
-        "incl. elapsed time is compared. (C) run() periods through the real MagicRobot loop for every driver-station history containing autonomous x 6 "
+        "discovery model (who is instantiated once, modes table, chooser options and preselection, raise / tolerate). (B) every history of the stated length over start / periodic (after a clock advance) / disable and, between "
+        "periods, edits of the dashboard 'Auto Selector' string and of the chooser selection; the exact callback log incl. the elapsed time passed to "
+        "on_iteration is compared with a model (chosen mode = dashboard string if it names a mode, else the chooser selection). (C) run() periods through the real MagicRobot loop for every driver-station history containing autonomous x 6 "
         "selection sources. states = packages x FMS; transitions = selector operations / loop iterations."
     )
     return core.finish(PID, tier, seed, res, time.time() - t0, rule, [
